@@ -229,7 +229,8 @@ fn oracle_one(rep: &mut Report, lim: &mut Limits, file: &[u8], fwd: &[Item], lin
     if got != exp {
         let maxlen = lines.iter().map(|l| l.len()).max().unwrap_or(0);
         // never a wrong line: is every Ok item the right one?
-        let wrong_line = got.iter().zip(exp.iter()).any(|(g, e)| matches!(g, Item::Ok(_)) && matches!(e, Item::Ok(_) | Item::Derr(..)) && g != e)
+        // a slice was handed to the parser that is not the line at that position
+        let wrong_line = got.iter().zip(exp.iter()).any(|(g, e)| matches!(g, Item::Ok(_) | Item::Derr(..)) && matches!(e, Item::Ok(_) | Item::Derr(..)) && g != e)
             || got.iter().filter(|g| !matches!(g, Item::IoSmall | Item::IoOther(_))).count() > n;
         let class: &'static str = if b >= maxlen {
             if wrong_line {
